@@ -12,6 +12,7 @@ fn main() {
         "iso" => sv::iso::main(&args[2..]),
         "nq" => sv::nq::main(&args[2..]),
         "c14n" => sv::c14n::main(&args[2..]),
+        "sparql" => sv::sparql::main(&args[2..]),
         _ => {
             eprintln!("unknown family {fam}");
             std::process::exit(2);
